@@ -35,7 +35,7 @@ COMPONENTS = {
 ASSUMPTIONS = ["phase after a gap is implementation-defined and judged only by Python==Rust; cadence is judged "
                "inside unit-tick stretches relative to the target the implementation itself holds at stretch start",
                "default preserve_phase=true, timer_scale=1.0 only"]
-PROBES = ["host_reset", "host_reset_timers_off", "machine_restart", "both_fire_same_cycle", "gap_ge_3_periods", "restore_target_in_past", "period_one", "disabled_stretch",
+PROBES = ["restore_into_used_machine", "host_reset", "host_reset_timers_off", "machine_restart", "both_fire_same_cycle", "gap_ge_3_periods", "restore_target_in_past", "period_one", "disabled_stretch",
           "zero_period", "reset_mid_period", "period_change", "i32_clamp", "machine_wait_cover", "machine_halt_idle"]
 
 SMALL = [(a, b) for a in range(13) for b in range(13)]
@@ -127,7 +127,8 @@ def generate(batch: str, r: Rng, idx: int, tier: str) -> Dict[str, Any]:
     rr = r.child("restarts")
     for _ in range(rr.range(0, 2)):
         k = rr.range(1, n - 1)
-        scn["ops"].append([k, "restart"])
+        # into a freshly constructed machine, or back into the same one after it ran on for a few instructions
+        scn["ops"].append([k, "restart"] if rr.chance(2, 3) else [k, "rewind", rr.range(1, 12)])
     # the reset button in mid-run (Python machine; the Rust runtime has no whole-machine reset): sometimes with the
     # timers switched off around it.  Afterwards the timers must behave as after power-on.
     rh = r.child("hostreset")
@@ -137,8 +138,8 @@ def generate(batch: str, r: Rng, idx: int, tier: str) -> Dict[str, Any]:
             scn["ops"].append([rh.range(2, k), "timers", False])
             scn["ops"].append([rh.range(k + 1, n - 2), "timers", True])
         scn["ops"].append([k, "hostreset"])
-        scn["ops"] = [o for o in scn["ops"] if not (o[1] == "restart" and abs(o[0] - k) <= 1)]
-    order = {"timers": 0, "hostreset": 1, "restart": 2}
+        scn["ops"] = [o for o in scn["ops"] if not (o[1] in ("restart", "rewind") and abs(o[0] - k) <= 1)]
+    order = {"timers": 0, "hostreset": 1, "restart": 2, "rewind": 2}
     scn["ops"].sort(key=lambda o: (o[0], order.get(o[1], 3)))
     scn["kind"] = "machine"
     return scn
@@ -342,7 +343,7 @@ def _check_machine(scn: Dict[str, Any], hist: Dict[str, Any]) -> List[dict]:
     obs = hist["obs"]
     pre_map = hist.get("preobs", {})
     t = scn["timer"]
-    restarts = set(o[0] for o in scn["ops"] if o[1] == "restart")
+    restarts = set(o[0] for o in scn["ops"] if o[1] in ("restart", "rewind"))
     switches = {o[0]: bool(o[2]) for o in scn["ops"] if o[1] == "timers"}
     resets = set(o[0] for o in scn["ops"] if o[1] == "hostreset")
     t = dict(t)
@@ -461,8 +462,10 @@ def stats(scn: Dict[str, Any], hist: Dict[str, Any]) -> Dict[str, Any]:
             probes["machine_wait_cover"] = 1
         if any(o[machine.O_PWR] == 1 for o in obs):
             probes["machine_halt_idle"] = 1
-        if any(o[1] == "restart" for o in scn["ops"]):
+        if any(o[1] in ("restart", "rewind") for o in scn["ops"]):
             probes["machine_restart"] = 1
+        if any(o[1] == "rewind" for o in scn["ops"]):
+            probes["restore_into_used_machine"] = 1
         if any(o[1] == "hostreset" for o in scn["ops"]):
             probes["host_reset"] = 1
             if any(o[1] == "timers" for o in scn["ops"]):
